@@ -63,7 +63,7 @@ PROPS = {}
 
 PROPS["C01"] = dict(
     stages=[st(12000, 400000), rt(2500, 100000), fuzz(150)],
-    rule="cases = rapid-generated scheduler executions (DAG with multiset deps drawn from earlier jobs, N, fail-fast/COE, per-job behaviour ok/error/Goexit/cancel, body timing, enqueue pacing incl. await-dependency-finished, ctx layout, emitter, hook perturbation plan); non-trivial = some job has >=2 distinct dependencies, or a duplicated dependency, or is enqueued only after one of its dependencies finished; distinct = hash(DAG, N, mode, behaviours, ctx layout)",
+    rule="cases = rapid-generated scheduler executions (DAG with multiset deps drawn from earlier jobs, N, fail-fast/COE, per-job behaviour ok/error/Goexit/cancel, body timing, enqueue pacing incl. await-dependency-finished, ctx layout incl. a private per-job context the job cancels itself, emitter, hook perturbation plan; 2% 'wide' cases with a limit of 60-100 and at least that many jobs in flight); non-trivial = some job has >=2 distinct dependencies, or a duplicated dependency, or is enqueued only after one of its dependencies finished; distinct = hash(DAG, N, mode, behaviours, ctx layout)",
     assumptions=SCHED_ASSUME,
 )
 PROPS["C03"] = dict(
